@@ -119,9 +119,11 @@ class STerm(SymVal):
         if name == 'disjoin': return Contract(lambda it, o: STerm.Op(Operator.Disjunction, self, o), 'Sentence.disjoin')
         if name == 'conjoin': return Contract(lambda it, o: STerm.Op(Operator.Conjunction, self, o), 'Sentence.conjoin')
         if name == 'unquantify' and self.kind == 'quant': return Contract(lambda it, c: self.unquantify(c), 'Quantified.unquantify')
-        if name in ('constants', 'variables', 'predicates', 'atomics') and self.kind in ('atom', 'op'):
-            # opaque operands stand for sentence letters here: no parameters, no predicates
-            if self.kind == 'atom': return frozenset()
+        if name in ('constants', 'variables', 'predicates', 'atomics') and self.kind in ('atom', 'op', 'quant', 'body', 'inst'):
+            # opaque operands / bodies stand for sentence letters here: no parameters, no predicates of their own
+            if self.kind in ('atom', 'body'): return frozenset()
+            if self.kind == 'inst': return frozenset([self.b]) if name == 'constants' and isinstance(self.b, Param) and self.b.kind == 'const' else frozenset()
+            if self.kind == 'quant': return self.c.sym_getattr(it, name)
             out = frozenset()
             for x in self.b: out |= x.sym_getattr(it, name)
             return out
